@@ -134,6 +134,18 @@ def ensemble_family(rng, n, k, fam):
         return out
     if fam == "negative":
         return [(-unit(np.abs(rng.normal(size=N)) + 0.05)).astype(complex) for _ in range(k)]
+    if fam == "mixed_types":             # a real basis state first, then real, then genuinely complex members
+        out = []
+        for i in range(k):
+            if i == 0:
+                v = np.zeros(N, dtype=complex)
+                v[int(rng.integers(N))] = 1.0
+            elif i % 3 == 1:
+                v = unit(rng.normal(size=N) + 1j * rng.normal(size=N))
+            else:
+                v = unit(rng.normal(size=N)).astype(complex)
+            out.append(v)
+        return out
     raise ValueError(fam)
 
 
@@ -257,7 +269,19 @@ def build(ens, probs, init_name, opt, classical, reset, entry, as_lists, probs_a
     """returns the circuit whose qubits are [aux..., data...]"""
     from qiskit import QuantumCircuit
     from qclib.state_preparation import MixedInitialize
-    e = [[complex(x) for x in v] for v in ens] if as_lists else [np.array(v) for v in ens]
+    if as_lists == "native":
+        # every member in the narrowest natural type of its values: integer list, float array, complex array
+        e = []
+        for v in ens:
+            v = np.asarray(v)
+            if np.all(v.imag == 0) and np.all(v.real == np.round(v.real)):
+                e.append([int(x) for x in v.real])
+            elif np.all(v.imag == 0):
+                e.append(np.array(v.real, dtype=float))
+            else:
+                e.append(np.array(v))
+    else:
+        e = [[complex(x) for x in v] for v in ens] if as_lists else [np.array(v) for v in ens]
     p = None if probs is None else (np.array(probs, dtype=float) if probs_array else list(probs))
     o = None if opt is None else dict(opt)
     k = len(ens)
@@ -400,6 +424,13 @@ def evaluate(ctx, deep):
                              "opt_params": None, "classical": classical, "reset": reset, "entry": "constructor",
                              "as_lists": False, "probs_array": bool(rng.random() < 0.3),
                              "family": f"{ef}/{pf}", "check": "valid"}
+                        if fi % 2 == 0 and k >= 2 and n <= 3:
+                            # the same configuration with a type-heterogeneous ensemble handed over in native Python / numpy types
+                            ens_t = ensemble_family(rng, n, k, "mixed_types")
+                            ct = dict(c, as_lists="native", family=f"mixed_types/{pf}")
+                            ctx.count(f"{'classical' if classical else 'in-circuit'}:default:mixed_types",
+                                      key=("vt", n, k, classical, reset, pf, ens_t[1].tobytes()), nontrivial=True)
+                            eval_case(ctx, ct, ens_t, probs)
                         ctx.count(f"{'classical' if classical else 'in-circuit'}:default:{ef}",
                                   key=("v", n, k, classical, reset, ef, pf, ens[0].tobytes()), nontrivial=k >= 2,
                                   sample={"n": n, "k": k, "probabilities": probs, "state0": [complex(x) for x in ens[0]]}
